@@ -94,6 +94,10 @@ func NewVC(fn string) *VC {
 	vc := &VC{FuncName: fn, nameCtr: map[string]int{}, declared: map[string]bool{}, kindCtr: map[string]int{}, defs: map[string]*Term{}}
 	curDefs = vc.defs
 	dynBase = ""
+	objBound = map[string]int{}
+	allocEpoch = map[string]int{}
+	memEpoch = map[string]int{}
+	curEpoch = 0
 	return vc
 }
 
@@ -121,6 +125,9 @@ func (vc *VC) freshName(base string) string {
 func (vc *VC) Fresh(base string, s Sort) *Term {
 	name := vc.freshName(base)
 	vc.Items = append(vc.Items, Item{Kind: itDecl, Name: name, Sort: s})
+	if s == SMem && memEpoch != nil {
+		memEpoch[name] = curEpoch
+	}
 	return Sym(name, s)
 }
 
@@ -132,6 +139,9 @@ func (vc *VC) Def(base string, t *Term) *Term {
 	name := vc.freshName(base)
 	vc.Items = append(vc.Items, Item{Kind: itDef, Name: name, Sort: t.Sort, Term: t})
 	vc.defs[name] = t
+	if t.Sort == SMem && memEpoch != nil {
+		memEpoch[name] = curEpoch
+	}
 	return Sym(name, t.Sort)
 }
 
@@ -355,40 +365,105 @@ func (ob *Obligation) scriptPlain(opt scriptOpt) string {
 		sb.WriteString(l)
 		sb.WriteByte('\n')
 	}
-	// relevance: collect symbols reachable from the goal through definitions; keep all
-	// assumptions (cheap) but only definitions that are referenced.
+	// relevance (cone of influence): start from the goal's symbols, follow definitions, and
+	// keep an assumption only if it shares a symbol with what is already relevant (to a
+	// fixpoint). Dropping assumptions can only make a query harder to refute, never unsound.
 	need := map[string]bool{}
 	ob.Goal.syms(need)
 	if ob.Excuse != nil {
 		ob.Excuse.syms(need)
 	}
-	for i := ob.Index - 1; i >= 0; i-- {
+	type itsyms struct {
+		syms map[string]bool
+	}
+	symsOf := make([]map[string]bool, ob.Index)
+	defIdx := map[string]int{}
+	for i := 0; i < ob.Index; i++ {
 		it := &vc.Items[i]
-		if it.Kind == itAssume {
-			it.Term.syms(need)
+		if it.Term != nil && (it.Kind == itAssume || it.Kind == itDef || it.Kind == itDefRec) {
+			m := map[string]bool{}
+			it.Term.syms(m)
+			symsOf[i] = m
+		}
+		if it.Kind == itDef || it.Kind == itDefRec {
+			defIdx[it.Name] = i
 		}
 	}
-	// definitions may reference earlier definitions: walk backwards
 	keep := make([]bool, ob.Index)
-	for i := ob.Index - 1; i >= 0; i-- {
-		it := &vc.Items[i]
-		switch it.Kind {
-		case itAssume:
+	// expand relevance through definitions
+	var work []string
+	for k := range need {
+		work = append(work, k)
+	}
+	expand := func() {
+		for len(work) > 0 {
+			k := work[len(work)-1]
+			work = work[:len(work)-1]
+			if i, ok := defIdx[k]; ok && !keep[i] {
+				keep[i] = true
+				for s := range symsOf[i] {
+					if !need[s] {
+						need[s] = true
+						work = append(work, s)
+					}
+				}
+			}
+		}
+	}
+	expand()
+	generic := map[string]bool{"STR": true, "ZERO": true}
+	nAssume := 0
+	for i := 0; i < ob.Index; i++ {
+		if vc.Items[i].Kind == itAssume {
+			nAssume++
+		}
+	}
+	// small queries are sent whole: slicing only pays off on large functions
+	if os.Getenv("GOCV_NOSLICE") != "" || nAssume <= 150 {
+		for i := 0; i < ob.Index; i++ {
+			if vc.Items[i].Kind == itAssume && !keep[i] {
+				keep[i] = true
+				for s := range symsOf[i] {
+					if !need[s] {
+						need[s] = true
+						work = append(work, s)
+					}
+				}
+				expand()
+			}
+		}
+	}
+	for changed := true; changed; {
+		changed = false
+		for i := 0; i < ob.Index; i++ {
+			it := &vc.Items[i]
+			if it.Kind != itAssume || keep[i] {
+				continue
+			}
+			hit := len(symsOf[i]) == 0
+			for s := range symsOf[i] {
+				if need[s] && !generic[s] {
+					hit = true
+					break
+				}
+			}
+			if !hit {
+				continue
+			}
 			keep[i] = true
-		case itDef:
-			if need[it.Name] {
-				keep[i] = true
-				it.Term.syms(need)
+			changed = true
+			for s := range symsOf[i] {
+				if !need[s] {
+					need[s] = true
+					work = append(work, s)
+				}
 			}
-		case itDecl:
-			if need[it.Name] {
-				keep[i] = true
-			}
-		case itDefRec:
-			if need[it.Name] {
-				keep[i] = true
-				it.Term.syms(need)
-			}
+			expand()
+		}
+	}
+	for i := 0; i < ob.Index; i++ {
+		if vc.Items[i].Kind == itDecl && need[vc.Items[i].Name] {
+			keep[i] = true
 		}
 	}
 	for i := 0; i < ob.Index; i++ {
